@@ -267,6 +267,51 @@ func ruleParamThread(rows []threadRow) func(c *Ctx, r *Report) {
 			if nsites == 0 {
 				r.info(rule, fmt.Sprintf("%s.%s", fname(fn), row.param), c.Pos(fn.Pos()), "recursive calls thread "+row.param, "function has no recursive call")
 			}
+			// re-entry through a wrapper that fixes the parameter (added after seed C02c: the argument swap in
+			// unify called the public Unify, which always passes occursCheck = false)
+			wrappers := map[*ssa.Function]string{}
+			for _, site := range c.callSitesOf(fn) {
+				w := site.Parent()
+				if topFunc(w) == fn || w == fn {
+					continue
+				}
+				if pidx >= len(site.Common().Args) {
+					continue
+				}
+				fixed := true
+				for _, l := range c.originSet(site.Common().Args[pidx]) {
+					if _, isConst := l.(*ssa.Const); !isConst {
+						fixed = false
+					}
+				}
+				if fixed {
+					wrappers[w] = valName(site.Common().Args[pidx])
+				}
+			}
+			nw := 0
+			for _, f := range withAnon(fn) {
+				eachInstr(f, func(in ssa.Instruction) {
+					ci, ok := in.(ssa.CallInstruction)
+					if !ok {
+						return
+					}
+					w := ci.Common().StaticCallee()
+					if w == nil {
+						return
+					}
+					if fixedTo, isW := wrappers[w]; isW {
+						nw++
+						r.bad(rule, fmt.Sprintf("%s/re-entry-through-%s.%s", fname(f), w.Name(), row.param), c.at(ci),
+							fmt.Sprintf("%s does not re-enter itself through a wrapper that fixes %s", fn.Name(), row.param),
+							fmt.Sprintf("%s calls %s, which calls %s with %s = %s: %s", fn.Name(), w.Name(), fn.Name(), row.param, fixedTo, row.why))
+					}
+				})
+			}
+			if nw == 0 && len(wrappers) > 0 {
+				r.ok(rule, fmt.Sprintf("%s/no-re-entry-through-wrapper.%s", fname(fn), row.param), c.Pos(fn.Pos()),
+					fmt.Sprintf("%s does not re-enter itself through a wrapper that fixes %s", fn.Name(), row.param),
+					fmt.Sprintf("%d wrappers fix the parameter to a constant; none is called from %s", len(wrappers), fn.Name()), true)
+			}
 		}
 		r.analysed(rule, fmt.Sprintf("%d (function, parameter) rows", len(rows)))
 	}
